@@ -282,4 +282,7 @@ theorem emits_normUnet3d_eq (P : UnetP) (cin cout F L : Nat) : emits (normUnet3d
   simp only [normUnet3d, unet3d, normUnetC, emits_append, cemits_append, emits_unet, cemits_unetC]
   simp [emits, cemits]
 
+theorem getD_of_lt (l : List Nat) (i : Nat) (h : i < l.length) : l.getD i 0 = l[i] := by
+  simp [List.getD, h]
+
 end DirectVerif.C17L
